@@ -184,7 +184,7 @@ def generate():
     or_offs = Arr('or_offs', 'i64')
     two_level('orr', 'OffsetResponse', [('partition', 'i32'), ('error', 'i16'), ('offsets', or_offs)],
               [('o', 'topic'), ('i', 'partition'), ('i', 'error'),
-               ('x', "or_off_items(data, {inner}_e_pos_offsets(data, {p}), or_offs_cnt(data, {inner}_e_pos_offsets(data, {p})))")], 4)
+               ('x', "tuple(or_off_items(data, {inner}_e_pos_offsets(data, {p}), or_offs_cnt(data, {inner}_e_pos_offsets(data, {p}))))")], 4)
     gen_flatten1(out, 'or_off_items', 'int', or_offs, None)
     RESP_SCHEMAS['fr2'] = [('correlation_id', 'i32'), ('throttle', 'i32')] + RESP_SCHEMAS['fr'][1:]
     # ---- flat and one-level responses ---------------------------------------------------------------
